@@ -8,7 +8,7 @@ impl TuiState {
 //@@ end
 
 fn strings(max_chars: usize) -> Vec<String> {
-    let alpha = ["a", "é", "€", "😀"];
+    let alpha = ["a", "é", "€", "😀", "\n"];
     let mut out = vec![String::new()];
     let mut frontier = vec![String::new()];
     for _ in 0..max_chars {
@@ -25,26 +25,43 @@ fn main() {
     let func = args.get(2).cloned().unwrap_or_default();
     std::panic::set_hook(Box::new(|_| {}));
     let ss = strings(4);
+    let label = args.get(1).cloned().unwrap_or_default();
+    let both = label.starts_with("buffers.");
     for max in 0usize..=12 {
         for a in &ss {
             for b in &ss {
-                let (a2, b2) = (a.clone(), b.clone());
-                let use_output = func.contains("push_output");
-                let r = std::panic::catch_unwind(move || {
-                    if use_output {
-                        let mut st = TuiState { output_text: a2, max_output_bytes: max, output_truncated: false };
-                        st.push_output(&b2);
-                        st.output_text.len()
-                    } else {
-                        let mut t = a2;
-                        push_preview(&mut t, &b2, max);
-                        t.len()
+                for use_output in [false, true] {
+                    if !both && use_output != func.contains("push_output") { continue; }
+                    let (a2, b2) = (a.clone(), b.clone());
+                    let r = std::panic::catch_unwind(move || {
+                        if use_output {
+                            let mut st = TuiState { output_text: a2, max_output_bytes: max, output_truncated: false };
+                            st.push_output(&b2);
+                            st.output_text
+                        } else {
+                            let mut t = a2;
+                            push_preview(&mut t, &b2, max);
+                            t
+                        }
+                    });
+                    let name = if use_output { "TuiState::push_output" } else { "push_preview" };
+                    match r {
+                        Err(_) => {
+                            println!("WITNESS {{\"function\": \"{}\", \"buffer_before\": {:?}, \"appended\": {:?}, \"max_bytes\": {}, \"outcome\": \"panic\"}}", name, a, b, max);
+                            return;
+                        }
+                        Ok(t) => {
+                            // memory within the configured bound: a buffer that was within its bound (it starts empty and only these
+                            // functions change it) still is; what is kept is the newest text (a suffix of everything pushed), all of it
+                            // when it fits. How much is dropped on overflow is the code's choice and not looked at.
+                            let all = format!("{a}{b}");
+                            let ok = a.len() > max || (t.len() <= max && all.ends_with(&t) && (all.len() > max || t == all));
+                            if !ok {
+                                println!("WITNESS {{\"function\": \"{}\", \"buffer_before\": {:?}, \"appended\": {:?}, \"max_bytes\": {}, \"buffer_after\": {:?}, \"outcome\": \"the buffer is not the newest text within its byte bound\"}}", name, a, b, max, t);
+                                return;
+                            }
+                        }
                     }
-                });
-                if r.is_err() {
-                    println!("WITNESS {{\"function\": \"{}\", \"buffer_before\": {:?}, \"appended\": {:?}, \"max_bytes\": {}, \"outcome\": \"panic\"}}",
-                        if use_output { "TuiState::push_output" } else { "push_preview" }, a, b, max);
-                    return;
                 }
             }
         }
